@@ -302,17 +302,184 @@ def indexed_arm_outcomes(stmts, acc: str, mvar: str, datav: str):
     return finals
 
 
+def _cast_shape(castfn):
+    """_cast_primitive_bit as `if T(p): return R(p) else: raise E(p)` (canonical body, helpers seen through) -> (p, T, R, E) | None"""
+    b = [x for x in castfn.body if not (isinstance(x, ast.Expr) and isinstance(x.value, ast.Constant))]
+    if len(b) == 1 and isinstance(b[0], ast.If) and len(b[0].body) == 1 and isinstance(b[0].body[0], ast.Return) and b[0].body[0].value is not None \
+            and len(b[0].orelse) == 1 and isinstance(b[0].orelse[0], ast.Raise) and b[0].orelse[0].exc is not None and len(castfn.args.args) == 1:
+        return castfn.args.args[0].arg, b[0].test, b[0].body[0].value, b[0].orelse[0].exc
+    return None
+
+
+def _repr_normalise(cfull: ast.FunctionDef, castfn: ast.FunctionDef):
+    """the registers held in another element type and converted where the bitstrings are read:
+
+        return {k: ''.join(str(b) for b in bits) for k, bits in ACC.items()}
+
+    with ACC a local dict of lists that are only built (displays, [c] * k, comprehensions), grown (extend / += / append), written by
+    position and measured (len): converting every element where it is STORED instead gives the same strings, so the body is rewritten
+    that way (str(0) is '0') and judged like the direct spelling.  A value checked where it is stored,
+    `if T(d): .. R(d) .. else: raise E(d)` with T, R, E those of _cast_primitive_bit, is `.. _cast_primitive_bit(d) ..` (nothing
+    survives the refusal: the accumulator is local and the function catches nothing).  None if the body is not of that shape."""
+    import copy
+    from ..norm import _Subst
+    fn = copy.deepcopy(cfull)
+    rets = [r for r in ast.walk(fn) if isinstance(r, ast.Return)]
+    if len(rets) != 1 or rets[0].value is None or any(isinstance(n, (ast.Try, ast.With)) for n in ast.walk(fn)):
+        return None
+    e = tmatch(rets[0].value, T("{c0: ''.join((str(c2) for c2 in c1)) for c0, c1 in L_acc.items()}"))
+    if e is None:
+        return None
+    acc = e["L_acc"]
+    created = [x for x in fn.body if isinstance(x, ast.Assign) and u(x.targets[0]) == acc]
+    if len(created) != 1 or u(created[0].value) != "{}":
+        return None
+    aliases = {acc}
+    for n in ast.walk(fn):
+        if isinstance(n, ast.Assign) and len(n.targets) == 1 and isinstance(n.targets[0], ast.Name):
+            v = n.value
+            if (isinstance(v, ast.Subscript) and u(v.value) == acc) or (isinstance(v, ast.Call) and u(v.func) == f"{acc}.setdefault" and len(v.args) == 2 and u(v.args[1]) == "[]"):
+                aliases.add(n.targets[0].id)
+    lists = aliases - {acc}
+    ok = [True]
+
+    def wrap(v):
+        if isinstance(v, ast.Constant) and isinstance(v.value, int) and not isinstance(v.value, bool):
+            return ast.Constant(str(v.value))
+        if isinstance(v, ast.IfExp):
+            return ast.IfExp(test=v.test, body=wrap(v.body), orelse=wrap(v.orelse))
+        if isinstance(v, ast.Call) and u(v.func) == "raise_":
+            return v
+        return ast.Call(func=ast.Name(id="str", ctx=ast.Load()), args=[v], keywords=[])
+
+    def wrap_list(v):
+        if isinstance(v, ast.List) and not any(isinstance(x, ast.Starred) for x in v.elts):
+            return ast.List(elts=[wrap(x) for x in v.elts], ctx=ast.Load())
+        if isinstance(v, ast.BinOp) and isinstance(v.op, ast.Mult):
+            if isinstance(v.left, ast.List):
+                return ast.BinOp(left=wrap_list(v.left), op=v.op, right=v.right)
+            if isinstance(v.right, ast.List):
+                return ast.BinOp(left=v.left, op=v.op, right=wrap_list(v.right))
+        if isinstance(v, ast.ListComp):
+            return ast.ListComp(elt=wrap(v.elt), generators=v.generators)
+        ok[0] = False
+        return v
+    handled = set()
+
+    def is_list_ref(x):
+        return (isinstance(x, ast.Name) and x.id in lists) or (isinstance(x, ast.Subscript) and u(x.value) == acc)
+    # one-use locals holding a list that is then stored (the canonical form without substitution keeps them)
+    defs = {}
+    for n in ast.walk(fn):
+        if isinstance(n, ast.Assign) and len(n.targets) == 1 and isinstance(n.targets[0], ast.Name):
+            defs.setdefault(n.targets[0].id, []).append(n)
+    for n in ast.walk(fn):
+        if isinstance(n, ast.Assign) and len(n.targets) == 1:
+            tg = n.targets[0]
+            if isinstance(tg, ast.Subscript) and u(tg.value) == acc:
+                n.value = wrap_list(n.value)
+                handled.add(id(tg.value))
+            elif isinstance(tg, ast.Subscript) and is_list_ref(tg.value):
+                n.value = wrap(n.value)
+                handled |= {id(x) for x in ast.walk(tg.value)}
+            elif isinstance(tg, ast.Name) and tg.id in aliases:
+                handled |= {id(x) for x in ast.walk(n.value) if isinstance(x, ast.Name) and x.id == acc}
+                handled.add(id(tg))
+        elif isinstance(n, ast.AugAssign) and isinstance(n.op, ast.Add) and is_list_ref(n.target):
+            n.value = wrap_list(n.value)
+            handled |= {id(x) for x in ast.walk(n.target)}
+        elif isinstance(n, ast.Call) and isinstance(n.func, ast.Attribute) and is_list_ref(n.func.value) and len(n.args) == 1 and not n.keywords:
+            if n.func.attr == "extend":
+                n.args = [wrap_list(n.args[0])]
+            elif n.func.attr == "append":
+                n.args = [wrap(n.args[0])]
+            else:
+                ok[0] = False
+            handled |= {id(x) for x in ast.walk(n.func.value)}
+        elif isinstance(n, ast.Call) and u(n.func) == "len" and len(n.args) == 1 and is_list_ref(n.args[0]):
+            handled |= {id(x) for x in ast.walk(n.args[0])}
+        elif isinstance(n, ast.Compare) and len(n.ops) == 1 and isinstance(n.ops[0], (ast.In, ast.NotIn)) and u(n.comparators[0]) == acc:
+            handled.add(id(n.comparators[0]))
+    handled |= {id(x) for x in ast.walk(rets[0].value)} | {id(created[0].targets[0])}
+    if not ok[0] or any(isinstance(n, ast.Name) and n.id in aliases and id(n) not in handled for n in ast.walk(fn)):
+        return None
+    rets[0].value = ast.parse(f"{{c0: ''.join(c1) for c0, c1 in {acc}.items()}}", mode="eval").body
+    # ---- values checked where they are stored
+    shape = _cast_shape(castfn)
+    if shape is not None:
+        p_, T_, R_, E_ = shape
+
+        def inst(x, d):
+            return u(_Subst({p_: d}).visit(copy.deepcopy(x)))
+
+        def subject(test):
+            """d with test == T(d): the parameter's occurrences all spell the same expression"""
+            cands = {u(n): n for n in ast.walk(test) if isinstance(n, ast.expr)}
+            for txt, d in cands.items():
+                if inst(T_, d) == u(test):
+                    return d
+            return None
+
+        class Out(ast.NodeTransformer):
+            def __init__(self, d):
+                self.d, self.hits = d, 0
+                self.want = inst(R_, d)
+
+            def visit(self, node):
+                if isinstance(node, ast.expr) and u(node) == self.want:
+                    self.hits += 1
+                    return ast.Call(func=ast.Name(id=castfn.name, ctx=ast.Load()), args=[copy.deepcopy(self.d)], keywords=[])
+                return super().visit(node)
+
+        class IfE(ast.NodeTransformer):
+            def visit_IfExp(self, node):
+                self.generic_visit(node)
+                d = subject(node.test)
+                if d is not None and isinstance(node.orelse, ast.Call) and u(node.orelse.func) == "raise_" and len(node.orelse.args) == 1 \
+                        and u(node.orelse.args[0]) == inst(E_, d) and u(node.body) == inst(R_, d):
+                    return ast.Call(func=ast.Name(id=castfn.name, ctx=ast.Load()), args=[copy.deepcopy(d)], keywords=[])
+                return node
+
+        def block(b):
+            out = []
+            for s_ in b:
+                for fld in ("body", "orelse"):
+                    bb = getattr(s_, fld, None)
+                    if isinstance(bb, list) and bb and isinstance(bb[0], ast.stmt):
+                        setattr(s_, fld, block(bb))
+                if isinstance(s_, ast.If) and len(s_.orelse) == 1 and isinstance(s_.orelse[0], ast.Raise) and s_.orelse[0].exc is not None:
+                    d = subject(s_.test)
+                    if d is not None and u(s_.orelse[0].exc) == inst(E_, d):
+                        o = Out(d)
+                        body = [o.visit(copy.deepcopy(x)) for x in s_.body]
+                        if o.hits == 1 and not any(isinstance(n, ast.Attribute) and isinstance(n.ctx, (ast.Store, ast.Del)) for x in body for n in ast.walk(x)):
+                            out += body
+                            continue
+                out.append(s_)
+            return out
+        from ..norm import forward_subst
+        fn.body = forward_subst(fn.body) if any(isinstance(n, ast.Name) and n.id.startswith("t_") for n in ast.walk(fn)) else fn.body
+        fn.body = block([IfE().visit(x) for x in fn.body])
+    return ast.fix_missing_locations(fn)
+
+
 def r4_write_semantics(ctx, m, shot, lp) -> None:
     """stated over the path summaries of one iteration of the replay loop: every local is replaced by its definition"""
     fn_o = shot.methods["to_register_bits"]
     fn = ctx.cfn(f"{MOD}.QsysShot.to_register_bits", subst=False)
+    cfull = ctx.cfn(f"{MOD}.QsysShot.to_register_bits")
+    # (registers held in another element type and converted where they are read: judged as if converted where they are stored)
+    alt = _repr_normalise(cfull, ctx.cfn(f"{MOD}._cast_primitive_bit"))
+    if alt is not None:
+        fn = cfull = alt
+        ctx.note("C19.R4: the registers are converted to characters where they are read; judged on the body that converts them where they are stored")
     loops = [n for n in fn.body if isinstance(n, ast.For)]
     lp = loops[0]
     tagv, datav = (u(lp.target.elts[0]), u(lp.target.elts[1])) if isinstance(lp.target, ast.Tuple) else ("?", "?")
     pre = fn.body[: fn.body.index(lp)]
     lps = [q for q in summaries(pre + lp.body)]
     # the accumulator: the dict the result is read from
-    rets = [r for r in ast.walk(ctx.cfn(f"{MOD}.QsysShot.to_register_bits")) if isinstance(r, ast.Return)]
+    rets = [r for r in ast.walk(cfull) if isinstance(r, ast.Return)]
     e = tmatch(rets[0].value, T("{c0: ''.join(c1) for c0, c1 in L_acc.items()}")) if len(rets) == 1 else None
     ctx.check(e is not None, "C19.R4", "to_register_bits: bitstrings joined in position order", m.path, fn_o.lineno, "", fn_o, found=u(rets[0].value) if rets else "")
     if e is None:
@@ -340,7 +507,6 @@ def r4_write_semantics(ctx, m, shot, lp) -> None:
     # ---- the indexed arm, followed abstractly (hv/lin.py): whatever the spelling, after it the register <group 1> exists, has length
     #      max(length before, n + 1) with n = int(<group 2>), was only ever filled with '0', and position n holds the casted bit
     from ..lin import Lin, implies
-    cfull = ctx.cfn(f"{MOD}.QsysShot.to_register_bits")
     clp = [x for x in cfull.body if isinstance(x, ast.For)]
     arm, mv, why = None, None, ""
     if len(clp) == 1:
